@@ -6,7 +6,8 @@
    submission is wedged (submitter.lock present and not owned by a live round) every later submitter
    invocation refuses to act; and rows are never lost. *)
 From Coq Require Import List ZArith NArith Bool.
-From Jade Require Import Base System SystemMonitors SystemProofs SystemInv SystemOrder SystemTheorems.
+From Jade Require Import Base System SystemMonitors SystemProofs SystemInv SystemOrder SystemTheorems SystemRound.
+From Jade.Gen Require Import RoundGen.
 From Jade.Props Require Import SysExamples.
 Import ListNotations.
 Open Scope N_scope.
@@ -49,8 +50,26 @@ Print Assumptions c11_single_round.
 
 (* a failed status query changes nothing *)
 Theorem c11_squeue_transient : forall sc s p s', step sc s (ESqueueFail p) = Some s' -> s' = s.
-Proof. intros sc s p s' H. unfold step in H. destruct (in_round s p); [injection H as <-; reflexivity|discriminate]. Qed.
+Proof.
+  intros sc s p s' H. unfold step in H. destruct (in_round s p) as [r|]; [|discriminate].
+  destruct (negb (r_collected r) && negb (r_owns r)); [injection H as <-; reflexivity|discriminate].
+Qed.
 Print Assumptions c11_squeue_transient.
+
+(* the order of a round: the list of protocol steps extracted from HpcSubmitter.run (Gen/RoundGen.v, regenerated from
+   the source on every run) is the order the model expects, and the acceptor enforces it: two protocol steps of one
+   process in one round occur in that order - e.g. results are collected before submitter.lock is created, every
+   sbatch lies between the creation of submitter.lock and the status update, the lock is removed last *)
+Theorem c11_round_order_of_the_source : run_steps = model_round.
+Proof. exact round_order_tied. Qed.
+Print Assumptions c11_round_order_of_the_source.
+
+Theorem c11_round_order_enforced : forall sc tr1 e1 tr2 e2 tr3 s p k1 k2,
+  run sc (tr1 ++ e1 :: tr2 ++ e2 :: tr3) = Some s ->
+  ev_step e1 = Some (p, k1) -> ev_step e2 = Some (p, k2) -> no_round p tr2 = true ->
+  (step_index k1 <= step_index k2)%nat.
+Proof. exact round_order_enforced. Qed.
+Print Assumptions c11_round_order_enforced.
 
 Example c11_nonvacuous : accepted ex_sc ex_tr_kill = true /\ handed_of ex_tr_kill = [0; 1] /\
   existsb (fun e => match e with EKill _ => true | _ => false end) ex_tr_kill = true.
